@@ -272,6 +272,7 @@ func TestC18ConnectSetup(t *testing.T) {
 				kind = "ok"
 			}
 			var o sim.DialOutcome
+			slowConnect := false // the CONNECT write sees one expiry after progress, then completes
 			wantRefused := false
 			wantFail := true
 			desc := kind
@@ -314,6 +315,7 @@ func TestC18ConnectSetup(t *testing.T) {
 					inside = off < lenConnect
 				}
 				wantFail = inside && (wk == sim.WReset || off == 0)
+				slowConnect = inside && lenConnect > 0 && wk == sim.WTimeout && off > 0
 			case "read-fault":
 				off := rapid.IntRange(0, 3).Draw(rt, "off")
 				rk := rapid.SampledFrom([]int{sim.REOF, sim.RReset, sim.RExpiry}).Draw(rt, "rkind")
@@ -342,6 +344,9 @@ func TestC18ConnectSetup(t *testing.T) {
 			}
 			phasesBefore, _ := h.connPhases()
 			pre := phaseAt(phasesBefore, h.Seq())
+			// (nothing armed by another action which could hold the attempt up)
+			undisturbed := !h.WritersParkedAny() && len(h.ParkedGates()) == 0 && h.Store.Parked() == 0
+			h.WithLock(func() { undisturbed = undisturbed && (h.NextConnOpts == nil || kind == "write-fault") })
 			h.ScriptDial(o)
 			h.Act("attempt %s", desc)
 			before := h.App.NResults()
@@ -463,6 +468,15 @@ func TestC18ConnectSetup(t *testing.T) {
 			if !wantFail {
 				if cur := h.Current(); failures > 0 && cur != nil && cur.Accepted() {
 					failedThenOK++
+				}
+				// a CONNECT which gets through (possibly slowly: an expiry
+				// after progress is tolerated) and a prompt accepting CONNACK
+				// establish the connection
+				if (kind == "ok" || slowConnect) && undisturbed && !h.WritersParkedAny() && len(h.ParkedGates()) == 0 {
+					if cur := h.Current(); cur == nil || !cur.Accepted() {
+						last, _ := h.App.Last()
+						h.Failf("attempt %s: the CONNECT got through and the broker accepted at once, yet no connection is established (last ReadSlices: %s)", desc, last)
+					}
 				}
 				return
 			}
